@@ -295,24 +295,7 @@ func runC02(c *Ctx) {
 		c.CriticalSection(fn, `^&hvs\.mtx`, "round lookup / creation and vote admission", Or(CallTo(`^\(\*consensus/types\.HeightVoteSet\)\.(getVoteSet|addRound)$`, ""), CallTo(`^\(\*types\.VoteSet\)\.AddVote$`, "")))
 	}
 
-	// ---- VoteSet.addVote: verified before counted ----------------------------------------------------
-	if fn := c.Fn("types", "VoteSet", "addVote"); fn != nil {
-		val := `call:\(\*types\.ValidatorSet\)\.GetByIndex\(voteSet\.valSet, vote\.ValidatorIndex\)`
-		c.Guarded(fn, "addVerifiedVote", CallTo(`^\(\*types\.VoteSet\)\.addVerifiedVote$`, ""),
-			G("vote != nil", NotNil(`^vote$`)),
-			G("vote.Height == voteSet.height", Cmp(`^vote\.Height$`, "==", `^voteSet\.height$`)),
-			G("vote.Round == voteSet.round", Cmp(`^vote\.Round$`, "==", `^voteSet\.round$`)),
-			G("vote.Type == voteSet.signedMsgType", Cmp(`^vote\.Type$`, "==", `^voteSet\.signedMsgType$`)),
-			G("valSet.GetByIndex(valIndex) != nil", NotNil(`^`+val+`#1$`)),
-			G("vote.ValidatorAddress.Equal(lookupAddr)", True(`^call:\(lib/common\.Address\)\.Equal\(vote\.ValidatorAddress, `+val+`#0\)$`)),
-			G("not already known (getVote miss)", False(`^call:\(\*types\.VoteSet\)\.getVote\(voteSet, vote\.ValidatorIndex, call:\(\*types\.BlockID\)\.Key\(&vote\.BlockID\)\)#1$`)),
-			G("vote.Verify(chainID, val.Address) == nil", IsNil(`^call:\(\*types\.Vote\)\.Verify\(vote, voteSet\.chainID, `+val+`#1\.Address\)$`)))
-		for _, in := range findInstrs(fn, CallTo(`^\(\*types\.VoteSet\)\.addVerifiedVote$`, "")) {
-			a := argPaths(callCommon(in))
-			ok := len(a) == 4 && a[1] == "vote" && a[2] == "call:(*types.BlockID).Key(&vote.BlockID)" && re(`^`+val+`#1\.VotingPower$`).MatchString(a[3])
-			c.Check("F", fnName(fn)+"/addVerifiedVote(vote, vote.BlockID.Key(), val.VotingPower)", ok, instrPos(in), 1, describeInstr(in))
-		}
-	}
+	voteAdmissionRules(c)
 	if fn := c.Fn("types", "VoteSet", "TwoThirdsMajority"); fn != nil {
 		c.Guarded(fn, "report ok=true", func(in ssa.Instruction) bool {
 			st, ok := in.(*ssa.Store)
@@ -502,4 +485,27 @@ func verifyCommitRules(c *Ctx) {
 		}
 	}
 
+}
+
+// voteAdmissionRules: a vote is counted only after it was checked against the vote set and verified with the key of
+// the validator at its index. Shared by C02 (quorum certificates) and C01 (a forged +2/3 breaks agreement).
+func voteAdmissionRules(c *Ctx) {
+	// ---- VoteSet.addVote: verified before counted ----------------------------------------------------
+	if fn := c.Fn("types", "VoteSet", "addVote"); fn != nil {
+		val := `call:\(\*types\.ValidatorSet\)\.GetByIndex\(voteSet\.valSet, vote\.ValidatorIndex\)`
+		c.Guarded(fn, "addVerifiedVote", CallTo(`^\(\*types\.VoteSet\)\.addVerifiedVote$`, ""),
+			G("vote != nil", NotNil(`^vote$`)),
+			G("vote.Height == voteSet.height", Cmp(`^vote\.Height$`, "==", `^voteSet\.height$`)),
+			G("vote.Round == voteSet.round", Cmp(`^vote\.Round$`, "==", `^voteSet\.round$`)),
+			G("vote.Type == voteSet.signedMsgType", Cmp(`^vote\.Type$`, "==", `^voteSet\.signedMsgType$`)),
+			G("valSet.GetByIndex(valIndex) != nil", NotNil(`^`+val+`#1$`)),
+			G("vote.ValidatorAddress.Equal(lookupAddr)", True(`^call:\(lib/common\.Address\)\.Equal\(vote\.ValidatorAddress, `+val+`#0\)$`)),
+			G("not already known (getVote miss)", False(`^call:\(\*types\.VoteSet\)\.getVote\(voteSet, vote\.ValidatorIndex, call:\(\*types\.BlockID\)\.Key\(&vote\.BlockID\)\)#1$`)),
+			G("vote.Verify(chainID, val.Address) == nil", IsNil(`^call:\(\*types\.Vote\)\.Verify\(vote, voteSet\.chainID, `+val+`#1\.Address\)$`)))
+		for _, in := range findInstrs(fn, CallTo(`^\(\*types\.VoteSet\)\.addVerifiedVote$`, "")) {
+			a := argPaths(callCommon(in))
+			ok := len(a) == 4 && a[1] == "vote" && a[2] == "call:(*types.BlockID).Key(&vote.BlockID)" && re(`^`+val+`#1\.VotingPower$`).MatchString(a[3])
+			c.Check("F", fnName(fn)+"/addVerifiedVote(vote, vote.BlockID.Key(), val.VotingPower)", ok, instrPos(in), 1, describeInstr(in))
+		}
+	}
 }
